@@ -1,8 +1,368 @@
-//! C14 — stub, to be written.
+//! C14: the expression parser is total and implements the documented grammar; print/parse round trip.
+//!
+//! Strings travel percent-encoded (`enc`): printable ASCII except space, `%`, `~`, `;` is literal,
+//! every other byte of the UTF-8 form is `%XX`. Expression trees travel as S-expressions without
+//! spaces: `c1 c0 v(<name>) not(e) and(l,r) or(l,r) xor(l,r) imp(l,r) iff(l,r) ite(c,t,e)`, names
+//! percent-encoded with everything except `[A-Za-z0-9_]` escaped.
 #[path = "../common.rs"]
 mod common;
+use biodivine_lib_bdd::boolean_expression::BooleanExpression;
+use biodivine_lib_bdd::boolean_expression::BooleanExpression::*;
 use common::*;
+use std::convert::TryFrom;
 
-pub fn run(key: &str, _a: &[String], _out: &mut Out) { panic!("unknown key {}", key) }
-pub fn gen(_tier: Tier, _rng: &mut Rng64, _out: &mut Out) {}
+fn s(x: &str) -> String { x.to_string() }
+
+pub fn enc(x: &str) -> String {
+    let mut o = String::new();
+    for (i, b) in x.bytes().enumerate() {
+        // a leading `=` is escaped so that a field can never start with the separator `=>`
+        if (0x21..=0x7e).contains(&b) && b != b'%' && b != b'~' && b != b';' && !(i == 0 && b == b'=') { o.push(b as char); } else { o.push_str(&format!("%{:02X}", b)); }
+    }
+    if o.is_empty() { s("~") } else { o }
+}
+pub fn dec(x: &str) -> String {
+    if x == "~" { return String::new(); }
+    dec_raw(x)
+}
+pub fn dec_raw(x: &str) -> String {
+    let b = x.as_bytes();
+    let mut out = Vec::new();
+    let mut i = 0;
+    while i < b.len() {
+        if b[i] == b'%' { out.push(u8::from_str_radix(&x[i + 1..i + 3], 16).unwrap()); i += 3; } else { out.push(b[i]); i += 1; }
+    }
+    String::from_utf8(out).expect("utf8")
+}
+fn enc_name(x: &str) -> String {
+    let mut o = String::new();
+    for b in x.bytes() {
+        if b.is_ascii_alphanumeric() || b == b'_' { o.push(b as char); } else { o.push_str(&format!("%{:02X}", b)); }
+    }
+    o
+}
+pub fn sexp(e: &BooleanExpression) -> String {
+    match e {
+        Const(true) => s("c1"),
+        Const(false) => s("c0"),
+        Variable(n) => format!("v({})", enc_name(n)),
+        Not(a) => format!("not({})", sexp(a)),
+        And(a, b) => format!("and({},{})", sexp(a), sexp(b)),
+        Or(a, b) => format!("or({},{})", sexp(a), sexp(b)),
+        Xor(a, b) => format!("xor({},{})", sexp(a), sexp(b)),
+        Imp(a, b) => format!("imp({},{})", sexp(a), sexp(b)),
+        Iff(a, b) => format!("iff({},{})", sexp(a), sexp(b)),
+        Cond(a, b, c) => format!("ite({},{},{})", sexp(a), sexp(b), sexp(c)),
+    }
+}
+/// parser of the S-expression form (harness-side, trusted plumbing)
+pub fn unsexp(x: &str) -> BooleanExpression {
+    fn go(b: &[u8], i: &mut usize) -> BooleanExpression {
+        let st = *i;
+        while *i < b.len() && b[*i] != b'(' && b[*i] != b',' && b[*i] != b')' { *i += 1; }
+        let head = std::str::from_utf8(&b[st..*i]).unwrap().to_string();
+        if head == "c1" { return Const(true); }
+        if head == "c0" { return Const(false); }
+        assert!(b[*i] == b'(', "sexp");
+        *i += 1;
+        if head == "v" {
+            let st = *i;
+            while b[*i] != b')' { *i += 1; }
+            let name = dec_raw(std::str::from_utf8(&b[st..*i]).unwrap());
+            *i += 1;
+            return Variable(name);
+        }
+        let mut args = vec![];
+        loop {
+            args.push(go(b, i));
+            if b[*i] == b',' { *i += 1; continue; }
+            assert!(b[*i] == b')');
+            *i += 1;
+            break;
+        }
+        let mut it = args.into_iter();
+        let mut nx = || Box::new(it.next().unwrap());
+        match head.as_str() {
+            "not" => Not(nx()),
+            "and" => And(nx(), nx()),
+            "or" => Or(nx(), nx()),
+            "xor" => Xor(nx(), nx()),
+            "imp" => Imp(nx(), nx()),
+            "iff" => Iff(nx(), nx()),
+            "ite" => Cond(nx(), nx(), nx()),
+            _ => panic!("sexp head {}", head),
+        }
+    }
+    let mut i = 0;
+    go(x.as_bytes(), &mut i)
+}
+
+fn outcome(x: &str) -> String {
+    match catch(|| BooleanExpression::try_from(x)) {
+        None => s("panic"),
+        Some(Err(_)) => s("err"),
+        Some(Ok(e)) => format!("ok {}", sexp(&e)),
+    }
+}
+/// one character per outcome in batches: `e` err, `p` panic, `o<sexp>` ok
+fn outcome_short(x: &str) -> String {
+    match catch(|| BooleanExpression::try_from(x)) {
+        None => s("p"),
+        Some(Err(_)) => s("e"),
+        Some(Ok(e)) => format!("o{}", sexp(&e)),
+    }
+}
+
+pub const TOKENS: [&str; 14] = ["a", "b", "true", "false", "!", "&", "|", "^", "=>", "<=>", "?", ":", "(", ")"];
+
+fn render(ids: &[usize]) -> String { ids.iter().map(|i| TOKENS[*i]).collect::<Vec<_>>().join(" ") }
+fn ids_field(ids: &[usize]) -> String { if ids.is_empty() { s("~") } else { ids.iter().map(|i| format!("{:x}", i)).collect() } }
+fn parse_ids(x: &str) -> Vec<usize> { if x == "~" { vec![] } else { x.chars().map(|c| c.to_digit(16).unwrap() as usize).collect() } }
+
+pub fn run(key: &str, a: &[String], out: &mut Out) {
+    match key {
+        // one string => ok <sexp> | err | panic
+        "C14.tok" | "C14.chr" | "C14.rnd" => {
+            let x = dec(&a[0]);
+            let o = outcome(&x);
+            out.case(key, a, &[o]);
+        }
+        // prefix (hex digits = token ids) k => outcomes of all 14^k completions, `;`-separated, in
+        // lexicographic order of the completion (first added token most significant)
+        "C14.tokb" => {
+            let prefix = parse_ids(&a[0]);
+            let k: u32 = a[1].parse().unwrap();
+            let total = 14usize.pow(k);
+            let mut res = String::new();
+            let mut ids = prefix.clone();
+            for j in 0..total {
+                ids.truncate(prefix.len());
+                let mut div = total / 14;
+                for _ in 0..k { ids.push((j / div.max(1)) % 14); div /= 14; }
+                if j > 0 { res.push(';'); }
+                res.push_str(&outcome_short(&render(&ids)));
+            }
+            out.case(key, a, &[res]);
+        }
+        // code points start..start+count: class of parsing "a<cp>": w = Variable("a") (cp was skipped as
+        // whitespace), i = Variable("a<cp>"), e = err, p = panic, o = any other Ok, - = not a scalar value
+        "C14.wsb" => {
+            let start: u32 = a[0].parse().unwrap();
+            let count: u32 = a[1].parse().unwrap();
+            let mut res = String::new();
+            for cp in start..start + count {
+                res.push(match char::from_u32(cp) {
+                    None => '-',
+                    Some(c) => {
+                        let x = format!("a{}", c);
+                        match catch(|| BooleanExpression::try_from(x.as_str())) {
+                            None => 'p',
+                            Some(Err(_)) => 'e',
+                            Some(Ok(Variable(n))) => if n == "a" { 'w' } else if n == x { 'i' } else { 'o' },
+                            Some(Ok(_)) => 'o',
+                        }
+                    }
+                });
+            }
+            out.case(key, a, &[res]);
+        }
+        // tree => printed form, outcome of parsing the printed form   (rtu: names are not parser-safe)
+        "C14.rt" | "C14.rtu" => {
+            let e = unsexp(&a[0]);
+            match catch(|| format!("{}", e)) {
+                None => out.case(key, a, &[s("panic"), s("-")]),
+                Some(printed) => { let o = outcome(&printed); out.case(key, a, &[enc(&printed), o]); }
+            }
+        }
+        _ => panic!("unknown key {}", key),
+    }
+}
+
+// ------------------------------------------------------------------------------------------------
+// generators
+
+const SAFE_NAMES: [&str; 14] = ["a", "b", "x_0", "v_1+{14}", "tru", "truee", "falsey", "True", "é", "变量", "a.b", "x'", "0", "a,b"];
+const UNSAFE_NAMES: [&str; 12] = ["", "true", "false", "a b", "a&b", "(a)", "a\u{a0}b", "!a", "a?", "x:y", "a=>b", "\t"];
+
+/// all trees with exactly `size` nodes over the given leaves, for size = 1..=max
+fn build_trees(max: usize, leaves: &[BooleanExpression]) -> Vec<Vec<BooleanExpression>> {
+    let mut memo: Vec<Vec<BooleanExpression>> = vec![vec![], leaves.to_vec()];
+    for size in 2..=max {
+        let mut cur = vec![];
+        for x in &memo[size - 1] { cur.push(Not(Box::new(x.clone()))); }
+        for ls in 1..size - 1 {
+            let rs = size - 1 - ls;
+            if rs < 1 { continue; }
+            for l in &memo[ls] { for r in &memo[rs] {
+                let (l, r) = (Box::new(l.clone()), Box::new(r.clone()));
+                cur.push(And(l.clone(), r.clone())); cur.push(Or(l.clone(), r.clone())); cur.push(Xor(l.clone(), r.clone()));
+                cur.push(Imp(l.clone(), r.clone())); cur.push(Iff(l, r));
+            } }
+        }
+        for x in 1..size { for y in 1..size {
+            if x + y + 1 >= size { continue; }
+            let z = size - 1 - x - y;
+            for p in &memo[x] { for q in &memo[y] { for r in &memo[z] {
+                cur.push(Cond(Box::new(p.clone()), Box::new(q.clone()), Box::new(r.clone())));
+            } } }
+        } }
+        memo.push(cur);
+    }
+    memo
+}
+
+pub fn random_tree(rng: &mut Rng64, depth: usize, names: &[&str]) -> BooleanExpression {
+    if depth == 0 || rng.chance(1, 5) {
+        return match rng.below(8) { 0 => Const(true), 1 => Const(false), _ => Variable(s(*rng.pick(names))) };
+    }
+    let sub = |rng: &mut Rng64| Box::new(random_tree(rng, depth - 1, names));
+    match rng.below(9) {
+        0 | 1 => Not(sub(rng)),
+        2 => And(sub(rng), sub(rng)),
+        3 => Or(sub(rng), sub(rng)),
+        4 => Xor(sub(rng), sub(rng)),
+        5 => Imp(sub(rng), sub(rng)),
+        6 => Iff(sub(rng), sub(rng)),
+        _ => Cond(sub(rng), sub(rng), sub(rng)),
+    }
+}
+
+/// precedence-aware printer with random redundant parentheses and random spacing (generator only)
+fn loose_print(rng: &mut Rng64, e: &BooleanExpression, ctx: u32, depth: &mut usize, o: &mut String) {
+    // levels: 6 iff, 5 imp, 4 cond, 3 or, 2 and, 1 xor, 0 term
+    let lvl = match e { Iff(..) => 6, Imp(..) => 5, Cond(..) => 4, Or(..) => 3, And(..) => 2, Xor(..) => 1, _ => 0 };
+    let paren = lvl > ctx || (*depth < 40 && rng.chance(1, 6));
+    let sp = |rng: &mut Rng64, o: &mut String| { match rng.below(6) { 0 => {}, 1 => o.push_str("  "), 2 => o.push('\t'), _ => o.push(' ') } };
+    if paren { o.push('('); *depth += 1; sp(rng, o); }
+    let c = if paren { 6 } else { ctx };
+    let _ = c;
+    match e {
+        Const(b) => o.push_str(if *b { "true" } else { "false" }),
+        Variable(n) => o.push_str(n),
+        Not(a) => { o.push('!'); if rng.chance(1, 4) { o.push(' '); } loose_print(rng, a, 0, depth, o); }
+        Iff(l, r) => { loose_print(rng, l, 5, depth, o); sp(rng, o); o.push_str("<=>"); sp(rng, o); loose_print(rng, r, 6, depth, o); }
+        Imp(l, r) => { loose_print(rng, l, 4, depth, o); sp(rng, o); o.push_str("=>"); sp(rng, o); loose_print(rng, r, 5, depth, o); }
+        Cond(p, q, r) => {
+            loose_print(rng, p, 3, depth, o); o.push(' '); o.push('?'); sp(rng, o);
+            loose_print(rng, q, 3, depth, o); o.push(' '); o.push(':'); sp(rng, o);
+            loose_print(rng, r, 3, depth, o);
+        }
+        Or(l, r) => { loose_print(rng, l, 2, depth, o); sp(rng, o); o.push('|'); sp(rng, o); loose_print(rng, r, 3, depth, o); }
+        And(l, r) => { loose_print(rng, l, 1, depth, o); sp(rng, o); o.push('&'); sp(rng, o); loose_print(rng, r, 2, depth, o); }
+        Xor(l, r) => { loose_print(rng, l, 0, depth, o); sp(rng, o); o.push('^'); sp(rng, o); loose_print(rng, r, 1, depth, o); }
+    }
+    if paren { sp(rng, o); o.push(')'); *depth -= 1; }
+}
+
+const CHR_FIXED: [&str; 64] = [
+    "", " ", "a<=>b", "a=b", "a<b", "a<=b", "<=", "<", "=", ">", "a>b", "a=>b", "a =>b", "a= >b", "a< =>b", "a<= >b",
+    "(", ")", "()", "(())", "(a", "a)", "(a))", "((a)", "(a)(b)", "(a)b", "a(b)", "!(a)", "!()", "(!)", "!", "!!", "!!a", "! ! a",
+    "a!", "a ! b", "a!b", "!a^b", "!a ^ b", "a ? b : c ? d : e", "a ? b : (c ? d : e)", "(a ? b : c) ? d : e", "a => b ? c : d",
+    "a ? b : c => d", "a ? b => c : d", "a ? b", "a : b", ": ?", "a ? b : :", "a ? ? : b", "a : b ? c", "? :", "a ?: b", "a ? b : c : d",
+    "true", "false", "truefalse", "true false", "!true", "a&true", "a\u{a0}&\u{2003}b", "a\u{200b}b", "变量 & é", "a & & b",
+];
+
+pub fn gen(tier: Tier, rng: &mut Rng64, out: &mut Out) {
+    let thorough = tier == Tier::Thorough;
+    // --- corpus-like fixed character strings first (shortest failing case stays small)
+    for x in CHR_FIXED { run("C14.chr", &[enc(x)], out); }
+    // --- all token strings up to length 4 as individual cases
+    for len in 0..=4u32 {
+        let total = 14usize.pow(len);
+        for j in 0..total {
+            let mut ids = vec![];
+            let mut div = total / 14;
+            for _ in 0..len { ids.push((j / div.max(1)) % 14); div /= 14; }
+            run("C14.tok", &[enc(&render(&ids))], out);
+        }
+    }
+    // --- longer ones in batches of 14^3 completions per line: length 5 (quick), 5..7 (thorough)
+    let max_len = if thorough { 7 } else { 5 };
+    for len in 5..=max_len {
+        let plen = len - 3;
+        let total = 14usize.pow(plen);
+        for j in 0..total {
+            let mut ids = vec![];
+            let mut div = total / 14;
+            for _ in 0..plen { ids.push((j / div.max(1)) % 14); div /= 14; }
+            run("C14.tokb", &[ids_field(&ids), s("3")], out);
+        }
+    }
+    // --- all character strings up to length 4 (quick) / 5 (thorough) over a tokenizer-level alphabet
+    let chars: [char; 11] = ['a', ' ', '<', '=', '>', '(', ')', '!', '?', ':', '&'];
+    let cmax = if thorough { 5 } else { 4 };
+    for len in 1..=cmax {
+        let total = 11usize.pow(len);
+        for j in 0..total {
+            let mut x = String::new();
+            let mut div = total / 11;
+            for _ in 0..len { x.push(chars[(j / div.max(1)) % 11]); div /= 11; }
+            run("C14.chr", &[enc(&x)], out);
+        }
+    }
+    // --- whitespace classification of every code point
+    let step = 4096u32;
+    let mut cp = 0u32;
+    while cp < 0x110000 { run("C14.wsb", &[cp.to_string(), step.to_string()], out); cp += step; }
+    // whitespace / non-ASCII inside expressions
+    let specials: [u32; 40] = [0x9, 0xa, 0xb, 0xc, 0xd, 0x1c, 0x1f, 0x20, 0x85, 0xa0, 0x1680, 0x180e, 0x2000, 0x2005, 0x200a, 0x200b, 0x200c,
+        0x2028, 0x2029, 0x202f, 0x205f, 0x2060, 0x3000, 0xfeff, 0xe9, 0x3b1, 0x4e2d, 0x1f600, 0x10ffff, 0x7f, 0x0, 0x8, 0xe, 0x84, 0x86, 0x9f, 0xa1, 0x167f, 0x1681, 0x2fff];
+    for c in specials {
+        let c = char::from_u32(c).unwrap();
+        for pat in ["a{}b", "{}a", "a & b{}", "{}", "a{}&{}b", "({}a{})", "!{}a", "a ={}> b", "a{}=>{}b"] {
+            run("C14.chr", &[enc(&pat.replace("{}", &c.to_string()))], out);
+        }
+    }
+    // --- round trip: all trees up to size 5 (quick) / 6 (thorough) over two names and the constants
+    let leaves = vec![Variable(s("a")), Variable(s("b")), Const(true), Const(false)];
+    let all = build_trees(if thorough { 6 } else { 5 }, &leaves);
+    for sz in 1..all.len() { for e in &all[sz] { run("C14.rt", &[sexp(e)], out); } }
+    // --- random trees to depth 8 over parser-safe names; and the same trees printed loosely, then mutated
+    let rounds = if thorough { 150000 } else { 6000 };
+    for i in 0..rounds {
+        let depth = 1 + (i % 8) as usize;
+        let e = random_tree(rng, depth, &SAFE_NAMES);
+        run("C14.rt", &[sexp(&e)], out);
+        let e2 = random_tree(rng, depth.min(6), &["a", "b", "c", "x_1", "é"]);
+        let mut o = String::new();
+        let mut d = 0usize;
+        loose_print(rng, &e2, 6, &mut d, &mut o);
+        run("C14.rnd", &[enc(&o)], out);
+        // token-level mutation: delete / duplicate / replace one character class
+        if rng.chance(1, 2) {
+            let mut cs: Vec<char> = o.chars().collect();
+            if !cs.is_empty() {
+                for _ in 0..1 + rng.below(2) {
+                    let p = rng.below(cs.len() as u64) as usize;
+                    match rng.below(4) {
+                        0 => { cs.remove(p); }
+                        1 => { let c = cs[p]; cs.insert(p, c); }
+                        2 => { cs[p] = *rng.pick(&['(', ')', '!', '&', '|', '^', '?', ':', '=', '<', '>', ' ', 'a']); }
+                        _ => { let c = *rng.pick(&['(', ')', '?', ':', '!']); cs.insert(p, c); }
+                    }
+                    if cs.is_empty() { break; }
+                }
+            }
+            run("C14.rnd", &[enc(&cs.iter().collect::<String>())], out);
+        }
+        if i % 10 == 0 {
+            let e3 = random_tree(rng, 3, &UNSAFE_NAMES);
+            run("C14.rtu", &[sexp(&e3)], out);
+        }
+    }
+    // --- deep nesting (<= 50 levels)
+    for depth in [10usize, 25, 50] {
+        for inner in ["a", "a & b", "a ? b : c", "", "!a"] {
+            let x = format!("{}{}{}", "(".repeat(depth), inner, ")".repeat(depth));
+            run("C14.rnd", &[enc(&x)], out);
+            let y = format!("{}{}{}", "!(".repeat(depth), inner, ")".repeat(depth));
+            run("C14.rnd", &[enc(&y)], out);
+            let z = format!("{}{}{}", "(a => ".repeat(depth), inner, ")".repeat(depth));
+            run("C14.rnd", &[enc(&z)], out);
+            let w = format!("{}{}{}", "(".repeat(depth), inner, ")".repeat(depth - 1));
+            run("C14.rnd", &[enc(&w)], out);
+        }
+    }
+}
+
 fn main() { harness_main(gen, run) }
